@@ -242,6 +242,21 @@ func cbordetGen(args []string) error {
 		id++
 		emit(map[string]interface{}{"case": id, "in": ints(in), "verdict": detVerdict(in, 3*time.Second), "mut": mut, "enc": fromEncoder})
 	}
+	// deep nesting (the subset has no depth limit): d arrays / one-pair maps around a leaf, also mixed, also a bad leaf
+	for _, d := range []int{1, 2, 15, 16, 17, 31, 32, 33, 63, 64, 65, 66, 127, 128, 129, 300} {
+		for _, shape := range []string{"arr", "map", "mixed"} {
+			var b []byte
+			for k := 0; k < d; k++ {
+				if shape == "arr" || (shape == "mixed" && k%2 == 0) {
+					b = append(b, 0x81)
+				} else {
+					b = append(b, 0xa1, 0x00)
+				}
+			}
+			put(append(append([]byte{}, b...), 0x00), "deep/"+shape, false)
+			put(append(append([]byte{}, b...), 0x18, 0x05), "deep/"+shape+"/badleaf", false)
+		}
+	}
 	for i := 0; i < n; i++ {
 		// a CBOR sequence of 1..2 items
 		var seq []*cnode
